@@ -300,5 +300,11 @@ def check(tier, seed):
         if not rejected and ("data" not in resp or resp.get("errors")):
             run.violation("response:data-present-when-validation-passes", "the request's validators accept the document, yet the response has keys %r" % (sorted(resp),), w, True)
     engine_p.run(run, 'C10')
+    # Engine A: a Float leaf written into a response is finite (strict JSON cannot carry NaN / Infinity): `coerce_float` is the Float type's serialiser
+    import contracts.scalars as SC
+    import spec.scalars_spec as SS
+    from vf import engine_a
+    ns = {k: v for k, v in vars(SS).items() if not k.startswith("__")}
+    run.cov["parts"]["engine_a"] = engine_a.run(run, [c for c in SC.CONTRACTS if c.qualname == "coerce_float"], ns, {}, engine_a.generic_instantiate(), jobs=1)
     return run.finish("other", "trace contracts over every syntactic path of the real function (Engine P, unbounded in the inputs, values abstracted) + bounded stand-in: response-format contracts on every enumerated request outcome (all failure stages, every truncation point)",
                       checker_cmd="./check C10 --tier %s" % tier)
